@@ -52,3 +52,23 @@ LEVEL_NOTE = ("Partial in the respects named in PARTIAL (byte-buffer refills / I
               "C08_ws_lengthening). Trusted: Lean kernel, the hand-written Fill model "
               "(tied exhaustively on short streams and by random long ones), translate_consts.py, harness + oracles.")
 TECHNIQUE = "Lean 4 proof by induction over chunkings with the carried scanner state as invariant + exhaustive/random differential execution of the real fill functions and parser"
+
+# ---- group gV: the byte-level character source (ustream_read_chars, ucnv_toUnicode + callback, 4096-byte refills) ----
+LEAN_MODULES += ["CifModel.Props.C08Stream"]
+REQUIRED += ["CifModel.C08_ustream_buffer_link", "CifModel.C08_ustream_any_requests", "CifModel.C08_ustream_any_requests_utf8",
+             "CifModel.C08_ustream_any_requests_utf16", "CifModel.C08_ustream_call", "CifModel.C08_ustream_bytes_conserved",
+             "CifModel.C08_bytes_to_scanner", "CifModel.C08_utf8_incremental", "CifModel.C08_utf16_incremental"]
+FAMILIES += ["ustream"]
+PARTIAL += [
+    "byte level (supersedes the first item as far as ustream_read_chars is concerned): Model/Ustream.lean models ustream_read_chars, "
+    "the refill of the 4096-byte buffer, ucnv_toUnicode with the CIF callback (overflow buffer, replacement unit) over a converter "
+    "PARAMETER constrained by `Laws` (prefix-incrementality, progress, overflow only when full); C08_ustream_any_requests / "
+    "C08_bytes_to_scanner hold for every such converter, every byte string, every request-size sequence; the model's UTF-8 and "
+    "UTF-16LE/BE converters meet the contract (C08_utf8_incremental, C08_utf16_incremental) and are tied to ICU 72 by family "
+    "`ustream` (real ustream_read_chars on fmemopen files, every alignment around 4096·k, capacity 1, malformed input). NOT proved: "
+    "that the model's UTF-8 transducer equals an independent specification of UTF-8 (Unicode Table 3-7) — it is compared with "
+    "ICU and with a hand-written Python reference decoder by the family's oracle only; other ICU converters (the system default, "
+    "windows-1252, …) are covered only as instances of `Laws` that nothing establishes; fread's I/O-error return is not modelled; "
+    "C08_bytes_to_scanner composes the deliveries with Model/Fill as a chunked source (any request sizes on both sides), not the "
+    "pointer-level hand-over dest = buffer + buffer_limit",
+]
